@@ -98,6 +98,11 @@ _Bool __CPROVER_uninterpreted_poweq(uint64_t, uint64_t, uint64_t, uint64_t, uint
    operators, are uninterpreted functions on BOTH sides (translated code and contract text): the obligation then states that the code applies
    the raw operator to exactly the stated operands, for every meaning of the operator, hence for the machine's; the duplicated divider /
    IEEE multiplier that no back end equates (DESIGN 4.1) disappears.  Operand overflow / division by zero stay bit-precise assertions. */
+#if defined(VF_CBMC) && (defined(LL2C_UF_DIV) || defined(LL2C_UF_ARITH))
+_Bool __CPROVER_uninterpreted_sprodfits64(uint64_t, uint64_t); _Bool __CPROVER_uninterpreted_sprodfits32(uint64_t, uint64_t);
+#define SPECP_sprodfits64(x, m) __CPROVER_uninterpreted_sprodfits64((uint64_t)(x), (uint64_t)(m))
+#define SPECP_sprodfits32(x, m) __CPROVER_uninterpreted_sprodfits32((uint64_t)(x), (uint64_t)(m))
+#endif
 #if defined(VF_CBMC) && defined(LL2C_UF_DIV)
 int64_t __CPROVER_uninterpreted_sdiv64(int64_t, int64_t); int64_t __CPROVER_uninterpreted_srem64(int64_t, int64_t);
 uint64_t __CPROVER_uninterpreted_udiv64b(uint64_t, uint64_t); uint64_t __CPROVER_uninterpreted_urem64b(uint64_t, uint64_t);
